@@ -48,16 +48,20 @@ func c01rGen(t *rapid.T) c01rScenario {
 		p := map[string]string{}
 		switch rapid.IntRange(0, 9).Draw(t, "txfault") {
 		case 0:
-			p["mail"] = rapid.SampledFrom([]string{"T", "P", "drop"}).Draw(t, "mail")
+			p["mail"] = rapid.SampledFrom([]string{"T", "P", "Tn", "Pn", "drop"}).Draw(t, "mail")
 		case 1:
-			p["data"] = rapid.SampledFrom([]string{"T", "P"}).Draw(t, "data")
+			p["data"] = rapid.SampledFrom([]string{"T", "P", "Tn", "Pn"}).Draw(t, "data")
 		case 2:
 			if sc.LMTP {
 				p["dropafter"] = fmt.Sprint(rapid.IntRange(0, len(sc.Rcpts)-1).Draw(t, "dropafter"))
 			}
 		}
 		for _, r := range sc.Rcpts {
-			switch rapid.IntRange(0, 7).Draw(t, "rcptfault") {
+			switch rapid.IntRange(0, 9).Draw(t, "rcptfault") {
+			case 8:
+				p["rcpt:"+c01rRcpts[r]] = "Tn"
+			case 9:
+				p["rcpt:"+c01rRcpts[r]] = "Pn"
 			case 0:
 				p["rcpt:"+c01rRcpts[r]] = "T"
 			case 1:
@@ -195,7 +199,7 @@ func c01rRun(sc c01rScenario) (vs []ev.V) {
 		vs = append(vs, ev.Vf("real:more-attempts-than-max-tries", "the next hop saw %d transactions, max_tries is %d%s", len(txs), sc.MaxTries, describe()))
 	}
 	for _, tx := range txs {
-		if tx.MailErr == "P" {
+		if strings.HasPrefix(tx.MailErr, "P") {
 			// every recipient of the message fails permanently with the transaction
 			for _, f := range fates {
 				f.permAt = append(f.permAt, tx.N)
@@ -214,12 +218,12 @@ func c01rRun(sc c01rScenario) (vs []ev.V) {
 			f.offered++
 			cls, refused := tx.RcptErr[rc]
 			switch {
-			case refused && cls == "P":
+			case refused && strings.HasPrefix(cls, "P"):
 				f.permAt = append(f.permAt, tx.N)
 			case refused:
 			case !tx.DataSeen:
 				// the transaction ended before DATA (all recipients refused, or dropped)
-			case tx.DataErr == "P":
+			case strings.HasPrefix(tx.DataErr, "P"):
 				f.permAt = append(f.permAt, tx.N)
 			case tx.DataErr != "":
 			case sc.LMTP:
@@ -230,7 +234,7 @@ func c01rRun(sc c01rScenario) (vs []ev.V) {
 				case st == "":
 					f.delivered++
 					f.deliveredAt = append(f.deliveredAt, tx.N)
-				case st == "P":
+				case strings.HasPrefix(st, "P"):
 					f.permAt = append(f.permAt, tx.N)
 				}
 			default:
@@ -306,7 +310,7 @@ func c01rRun(sc c01rScenario) (vs []ev.V) {
 
 func TestVerifC01Real(t *testing.T) {
 	r := ev.Get("C01")
-	ev.Run(t, r, ev.Spec[c01rScenario]{Name: "real-downstream", N: r.Scale(1, 8, 40), Gen: c01rGen, Run: c01rRun, Info: func(sc c01rScenario) ev.Info {
+	ev.Run(t, r, ev.Spec[c01rScenario]{Name: "real-downstream", Journal: true, N: r.Scale(1, 8, 40), Gen: c01rGen, Run: c01rRun, Info: func(sc c01rScenario) ev.Info {
 		faults := 0
 		for _, p := range sc.Plans {
 			faults += len(p)
